@@ -28,6 +28,8 @@ EXCEPTIONS = {"isoweek": "isocalendar()[1]", "quarter": "ceil(month / 3)"}
 
 def check(ctx):
     repo = ctx.repo
+    from . import generic as _gen
+    _gen.language_traps(ctx, _gen.anchor_functions(repo, "C19"), "the property holds for every input, on every call")
     for r, t in (("FWD-registry", "proxy attribute == module function of the same name, vector bound at the right parameter, registry complete"),
                  ("SIB-17", "regex twins call re.<own name> identically in both branches"),
                  ("SIB-18", "dt extractor lambda reads the attribute/method of its own name"),
